@@ -63,6 +63,13 @@ pub fn gen_sets(cfg: &RunCfg) -> Vec<Vec<M>> {
                                 mods[j].defs.push(D { text: format!("{name} ::= {form}"), name, kind: Kind::Type, shape: "UseQ".into(), refs: vec![t.clone()], fault: None });
                             }
                         }
+                        // a cycle across the two modules, by qualified references on both sides (one side gets boxed)
+                        if rng.chance(1, 2) {
+                            let here = mods[j].name.clone();
+                            let (cyc, link) = (format!("UseQ{set}x{j}cyc"), format!("UseQ{set}x{j}lnk"));
+                            mods[j].defs.push(D { text: format!("{cyc} ::= SEQUENCE {{ next [0] {prov}.{link} OPTIONAL, v [1] INTEGER }}"), name: cyc.clone(), kind: Kind::Type, shape: "UseQ".into(), refs: vec![link.clone()], fault: None });
+                            mods[i].defs.push(D { text: format!("{link} ::= SEQUENCE {{ back [0] {here}.{cyc} OPTIONAL }}"), name: link, kind: Kind::Type, shape: "UseQ".into(), refs: vec![cyc], fault: None });
+                        }
                     }
                 }
             }
@@ -125,6 +132,10 @@ fn expected_uses(mods: &[M], j: usize) -> BTreeMap<String, BTreeSet<String>> {
         for s in syms {
             if s.starts_with(|c: char| c.is_lowercase()) {
                 if let Some((_, d)) = find(s) {
+                    // a value governed by a selection type is of the selected alternative's (built-in) type
+                    if d.shape == "vSel" {
+                        continue;
+                    }
                     if let Some(t) = d.refs.first() {
                         if let Some((q, td)) = find(t) {
                             if q != j && td.kind == Kind::Type && !imported.contains(t) {
